@@ -255,6 +255,7 @@ class World:
         self.touched = {}       # path -> set of node names that operated on it
         self.xdel_used = False
         self.exempt = {}        # path deleted externally -> node that owned it
+        self.last_ok_create = {}  # (node, path) -> container whose create completed last
         self.started = None
         self.step = 0
         self.tr = Trace()
@@ -595,11 +596,22 @@ class World:
             for p, r in items:
                 if p == path:
                     reg = r
-        return site + (':registered-to-deleted-container' if reg == rid
-                       else ':registered-to-other-container')
+        if reg != rid:
+            return site + ':registered-to-other-container'
+        last = self.last_ok_create.get((actor.name, path))
+        if last is not None and CONTAINERS[last]['rid'] != rid:
+            # the service's table names the deleted container although the
+            # last create to complete for this node came from another one
+            return site + ':table-names-deleted-container-but-' \
+                'another-container-registered-last'
+        return site + ':registered-to-deleted-container'
 
     def _registered(self, n, cname):
         gen = CONTAINERS[cname]['gen']
+        # which container's create request was the last to complete for each
+        # path on this node (harness-side, independent of the service's table)
+        for path, _payload in container_paths(n.host, cname):
+            self.last_ok_create[(n.name, path)] = cname
         if any(CONTAINERS[other]['gen'] > gen for other in n.live):
             # a newer container of the instance is live on this node: this
             # one is superseded (see _start), its reply establishes nothing
@@ -773,7 +785,8 @@ class World:
         oracle = (tuple(sorted(self.ref.items())),
                   tuple(sorted(self.culprit.items())),
                   self.tr.dev, self.xdel_used,
-                  tuple(sorted(self.exempt.items())))
+                  tuple(sorted(self.exempt.items())),
+                  tuple(sorted(self.last_ok_create.items())))
         return (tree, tuple(watches), pend, tuple(nodes), oracle)
 
 
